@@ -3,6 +3,7 @@ package drivers
 import (
 	"fmt"
 	"math/rand"
+	"sync"
 
 	"verif/harness/machine"
 	"verif/harness/trace"
@@ -41,8 +42,11 @@ func (c cartSpec) String() string {
 }
 
 var romCache = map[[3]int][]byte{}
+var romCacheMu sync.Mutex
 
 func cartImage(c cartSpec) []byte {
+	romCacheMu.Lock()
+	defer romCacheMu.Unlock()
 	k := [3]int{c.typ, c.romSize, c.ramSize}
 	if img, ok := romCache[k]; ok {
 		return img
